@@ -94,6 +94,17 @@ func runCrashHistory(h crashHistory, seen map[uint64]bool, st *explore.Stats) (s
 			if err := writeAny(sr, fmt.Sprintf("r%d", n)); err == nil {
 				rPeer.Ack("W:" + sr.OpLog().Heads().Slice()[0].GetHash().String())
 			}
+		case "wf": // a local write whose head-list write fails: it may only be acknowledged if it is recoverable all the same
+			var werr error
+			withFailingPut(net, "R", "_localHeads", func() { werr = writeAny(sr, fmt.Sprintf("r%d", n)) })
+			if werr == nil {
+				rPeer.Ack("W:" + sr.OpLog().Heads().Slice()[0].GetHash().String())
+			}
+		case "syncf": // a merge whose head-list write fails
+			if sa.OpLog().Len() > 0 {
+				hs, _ := WireCopy(addr, sa.OpLog().Heads().Slice())
+				withFailingPut(net, "R", "_remoteHeads", func() { _ = sr.Sync(bg, hs) })
+			}
 		case "aw":
 			_ = writeAny(sa, fmt.Sprintf("a%d", n))
 		case "sync":
@@ -314,8 +325,33 @@ func short4(h string) string {
 	return h
 }
 
+// withFailingPut runs f while every cache write of the peer to a key ending in suffix fails (a storage fault at
+// exactly that step; everything else works).
+func withFailingPut(net *sim.Net, peer, suffix string, f func()) {
+	net.Gates.Enable(func(kind, p, key, caller string) bool {
+		return kind == "cache.put" && p == peer && strings.HasSuffix(key, suffix)
+	})
+	call := async("faulty step", func() error { f(); return nil })
+	for i := 0; i < 100; i++ {
+		_ = sim.Quiesce()
+		parked := net.Gates.Parked()
+		if len(parked) == 0 && call.finished() {
+			break
+		}
+		for _, l := range parked {
+			_ = net.Gates.Release(l, sim.AnswerFail)
+		}
+	}
+	net.Gates.Enable(nil)
+	net.Gates.ReleaseAll()
+	_ = sim.Quiesce()
+}
+
 func crashHistories(depth int) []crashHistory {
-	alpha := []string{"w", "aw", "sync", "snap", "bw", "syncb"}
+	return crashHistoriesOver(depth, []string{"w", "aw", "sync", "snap", "bw", "syncb"})
+}
+
+func crashHistoriesOver(depth int, alpha []string) []crashHistory {
 	var out []crashHistory
 	var rec func(prefix []string)
 	rec = func(prefix []string) {
@@ -470,7 +506,7 @@ func runDiskCyclesOpts(kind string, cycles int, remote, shared bool) (string, []
 func init() {
 	explore.Register(&explore.CheckDef{
 		ID: "C05", Level: "model_checking",
-		Rule: "all histories of length <= depth over {local write, write by remote A, sync of A's heads, snapshot save, write by remote B, sync of B's heads} on replica R, for the three store types; for every history the ordered effect log of R (block writes including fetched blocks, cache puts, keystore puts) with acknowledgement markers (write returned, replicated event emitted) is recorded and for EVERY prefix of it (deduplicated by content) a recovered, isolated world is built, the database opened and loaded; oracle: recovered entries include every acknowledged entry, only written entries, closed under ancestry, order and view equal the reference over the recovered set, identity unchanged, a new write succeeds. Crashes while several goroutines write: every interleaving of two concurrent writers at the write path's schedule points (three store types; thorough also three writers, <= 3 deviations), and for each schedule every prefix of the effect log it produced, same oracle. Plus clean close/reopen cycles (1-3, with and without replication, also with two databases opened through one options value) on real leveldb directories. states = distinct crash images, transitions = recoveries. Non-trivial = crash points strictly inside an action (not at a quiescent boundary).",
+		Rule: "all histories of length <= depth over {local write, write by remote A, sync of A's heads, snapshot save, write by remote B, sync of B's heads} on replica R, for the three store types; for every history the ordered effect log of R (block writes including fetched blocks, cache puts, keystore puts) with acknowledgement markers (write returned, replicated event emitted) is recorded and for EVERY prefix of it (deduplicated by content) a recovered, isolated world is built, the database opened and loaded; oracle: recovered entries include every acknowledged entry, only written entries, closed under ancestry, order and view equal the reference over the recovered set, identity unchanged, a new write succeeds. Storage faults: histories of length <= 3 (thorough 4) in which the write of `_localHeads` during a local write or of `_remoteHeads` during a merge fails (a write is acknowledged only if its call returned no error), same crash-prefix enumeration. Crashes while several goroutines write: every interleaving of two concurrent writers at the write path's schedule points (three store types; thorough also three writers, <= 3 deviations), and for each schedule every prefix of the effect log it produced, same oracle. Plus clean close/reopen cycles (1-3, with and without replication, also with two databases opened through one options value) on real leveldb directories. states = distinct crash images, transitions = recoveries. Non-trivial = crash points strictly inside an action (not at a quiescent boundary).",
 		Units: func(tier string) []explore.Unit {
 			n := 16
 			if tier == "thorough" {
@@ -478,6 +514,8 @@ func init() {
 			}
 			u := explore.ChunkUnits("crash-"+tier, n)
 			u = append(u, explore.ChunkUnits("disk-"+tier, 3)...)
+			// storage faults: histories in which the write of a cached head list fails
+			u = append(u, explore.ChunkUnits("fault-"+tier, 4)...)
 			// crashes while several goroutines write: every interleaving of two writers at the write path's schedule
 			// points, and for each one every prefix of the effect log it produced
 			for _, k := range []string{"eventlog", "keyvalue-same", "docstore-same"} {
@@ -526,6 +564,26 @@ func init() {
 								Run: func() (string, []explore.Violation) { return runDiskCyclesOpts(k, cyc, remote, true) }})
 						}
 					}
+				}
+			} else if strings.HasPrefix(prefix, "fault-") {
+				depth := 3
+				if strings.HasSuffix(prefix, "thorough") {
+					depth = 4
+				}
+				seen := map[uint64]bool{}
+				for _, h := range crashHistoriesOver(depth, []string{"w", "wf", "aw", "sync", "syncf"}) {
+					h := h
+					faults := 0
+					for _, a := range h.actions {
+						if a == "wf" || a == "syncf" {
+							faults++
+						}
+					}
+					if faults == 0 {
+						continue // covered by the fault-free family
+					}
+					cases = append(cases, explore.Case{ID: fmt.Sprintf("crash %s %v", h.kind, h.actions), Nontrivial: true,
+						Run: func() (string, []explore.Violation) { return runCrashHistory(h, seen, c.Stats) }})
 				}
 			} else {
 				depth := 4
